@@ -29,7 +29,7 @@ func init() {
 }
 
 func checkC01(p *core.Prog, r *core.Report) {
-	r.Explanation = "Decides structural necessary conditions of the capacity bound: (R1/R5) every grant as a new holder (call of LockManager.AddLock) is reached only through the true side of the admission predicate doLock for the same manager and lock, with the shard mutex held continuously from the predicate to the holder-list insert and the depth increment; (R2) every true-returning path of doLock entails locked==0 or locked<=request.Count and locked<=oldest.Count (less-lock-version paths exempt as in the property); (R3) every store to hold-state fields of LockManager/Lock happens with the shard mutex held (interprocedural lock-state, entry state = join over call sites); (R4) after taking a manager's mutex the key is re-checked before any use. NOT decided: linearizability of the lock-free key table, PriorityMutex lanes, that LockManager.locked equals the number of holders, holding the wrong shard's mutex (one abstract lock per mutex type)."
+	r.Explanation = "Decides structural necessary conditions of the capacity bound: (R1/R5) every grant as a new holder (call of LockManager.AddLock) is reached only through the true side of the admission predicate doLock for the same manager and lock, with the shard mutex held continuously from the predicate to the holder-list insert and the depth increment; (R2) every true-returning path of doLock entails locked==0 or locked<=request.Count and locked<=oldest.Count (less-lock-version paths exempt as in the property); (R3) every store to hold-state fields of LockManager/Lock happens with the shard mutex held (interprocedural lock-state, entry state = join over call sites); (R4) after taking a manager's mutex the key is re-checked before any use; (R5) GetOrNewLockManager publishes a fresh manager for a key only after a slow-map lookup of that key on the path or after reading the bucket counter as 0, and inserts into the slow map only inside the write-locked section of its lookup. NOT decided: linearizability of the lock-free key table beyond R5 (the CAS protocol on the slot word, retirement races), PriorityMutex lanes, that LockManager.locked equals the number of holders, holding the wrong shard's mutex (one abstract lock per mutex type)."
 	r.Assumptions = []string{
 		"Go type checker, go/ssa and the VTA call graph are correct for /repo",
 		"all *PriorityMutex values are one abstract lock class (wrong-shard locking is not detected)",
@@ -39,6 +39,90 @@ func checkC01(p *core.Prog, r *core.Report) {
 	c01R1(p, r)
 	c01R4(p, r)
 	c01R3(p, r)
+	c01R5(p, r)
+}
+
+// ---------------------------------------------------------------------------
+// R5: one manager per key. GetOrNewLockManager publishes a fresh manager for a
+// key (store to a fast slot's manager field, or insertion into the slow map)
+// only on a path that ruled out an existing manager for that key: it looked
+// the key up in the slow map (and did not return the hit), or it read the
+// bucket counter as zero (no key of this bucket exists anywhere). A second
+// manager for a live key admits a second set of holders.
+func c01R5(p *core.Prog, r *core.Report) {
+	const rule = "C01/R5"
+	r.Rule(rule, "GetOrNewLockManager publishes a fresh manager only after ruling out an existing one for the key (slow-map lookup on the path, or bucket counter read as 0); the slow-map insert is in the write-locked section of its lookup", 3)
+	fn := mustFunc(p, r, "server.(*LockDB).GetOrNewLockManager")
+	if fn == nil {
+		return
+	}
+	cmd := fn.Params[1].Name()
+	ex := core.NewExplorer(p, core.Hooks{
+		Track: func(x *core.X, a core.Atom) bool {
+			s := a.String()
+			return strings.Contains(s, ".count)") || strings.Contains(s, ".locks[")
+		},
+		Instr: func(x *core.X) {
+			if !x.Top() {
+				return
+			}
+			if cl, acq, ok := trackLocks(x); ok {
+				if cl == "mGlock" && !acq {
+					x.Set("lkw", "")
+				}
+				return
+			}
+			ruledOut := func() (bool, string) {
+				if x.Get("lk") == "1" {
+					return true, "slow-map lookup on the path"
+				}
+				for h := range x.St.Hist {
+					hp := core.Plain(h)
+					if strings.Contains(hp, ".count)") && (strings.HasSuffix(hp, " <= 0") || strings.HasSuffix(hp, " == 0")) && strings.HasPrefix(hp, "LoadUint32(") {
+						return true, "bucket counter read as 0"
+					}
+				}
+				return false, ""
+			}
+			switch t := x.Ins.(type) {
+			case *ssa.Lookup:
+				if strings.HasSuffix(core.Plain(x.Canon(t.X).S), ".locks") && core.Plain(x.Canon(t.Index).S) == cmd+".LockKey" {
+					x.Set("lk", "1")
+					if held(x, "mGlock") {
+						x.Set("lkw", "1")
+					}
+				}
+			case *ssa.Store:
+				k, ok := storeKey(t.Addr)
+				if !ok || k.Field != "manager" || k.Type != "server.FastKeyValue" {
+					return
+				}
+				if x.Canon(t.Val).S == "nil" {
+					return
+				}
+				key := siteKey(p, x.Ins)
+				if ok, why := ruledOut(); ok {
+					r.Hold(rule, key, x.Pos(), "fast-slot publication after "+why)
+				} else {
+					r.Violate(rule, key, x.Pos(), "a fresh manager is published in the fast slot on a path that neither looked the key up in the slow map nor read the bucket counter as 0: a key living in the slow map gets a second manager (two sets of holders)", x.St.Trace)
+				}
+			case *ssa.MapUpdate:
+				if !strings.HasSuffix(core.Plain(x.Canon(t.Map).S), ".locks") {
+					return
+				}
+				key := siteKey(p, x.Ins)
+				if x.Get("lkw") == "1" && held(x, "mGlock") {
+					r.Hold(rule, key, x.Pos(), "slow-map insert in the locked section of its lookup")
+				} else {
+					r.Violate(rule, key, x.Pos(), "slow-map insert without a lookup of the key in the same mGlock section: two requests for a new key both insert a manager", x.St.Trace)
+				}
+			}
+		},
+	})
+	ex.Run(fn, nil)
+	if ex.Imprecise != "" {
+		r.Fail("C01/R5: %s", ex.Imprecise)
+	}
 }
 
 // ---------------------------------------------------------------------------
